@@ -35,6 +35,8 @@ type IdP struct {
 	TokenFault    string // "", refuse, noidtoken, badsig, wrongiss, wrongaud, expired, noclaim, 5xx, garbage
 	UserinfoFault string // "", 401, 5xx, garbage, refuse, cut
 	Down          bool   // every request fails at connection level
+	// UserinfoDelay: the userinfo endpoint takes that long to answer (it does answer)
+	UserinfoDelay time.Duration
 
 	Reqs []IdPReq
 }
@@ -212,6 +214,14 @@ func (p *IdP) handle(r *http.Request, body []byte, tok string) (*http.Response, 
 		f := p.UserinfoFault
 		if f != "" {
 			p.w.S.Count("fault.idp.userinfo." + f)
+		}
+		if d := p.UserinfoDelay; d > 0 {
+			p.w.S.Count("fault.idp.userinfo.slow")
+			select {
+			case <-time.After(d):
+			case <-r.Context().Done():
+				return nil, r.Context().Err()
+			}
 		}
 		switch f {
 		case "refuse":
